@@ -477,6 +477,26 @@ func c20Prop(c *sim.Case) {
 		}
 	}
 
+	// successive rotations of one watched file, each given the time to be picked up and each judged: what a watcher
+	// keeps from one change must not hide the next
+	for si, s := range sets {
+		if s.caKind == 2 && !s.missing && s.hasIntvl && s.interval > 0 && sim.Weighted(c, "successive-rotations", 2, 1) == 1 {
+			load(si, 1)
+			for k, nrot := 0, 2+sim.Pick(c, "succ.n", 3); k < nrot; k++ {
+				w := c20Write{ca: sim.Pick(c, "succ.ca", 3)}
+				s.put(e.cas[w.ca].PEM)
+				w.at = time.Now()
+				s.writes = append(s.writes, w)
+				rotated = true
+				c.Logf("rotation %d of setting %d: CA %d", k+1, si, w.ca)
+				time.Sleep(2*s.interval + 40*time.Millisecond)
+				handshake(si, fmt.Sprintf("ca%d", w.ca))
+				handshake(si, fmt.Sprintf("ca%d", (w.ca+1)%3))
+			}
+			c.Class("successive-rotations")
+			break
+		}
+	}
 	n := 2 + sim.Pick(c, "nops", 12)
 	for i := 0; i < n; i++ {
 		si := sim.Pick(c, "setting", ns)
